@@ -110,12 +110,18 @@ def proof_step(pid, tier, log):
         res["ok"] = False
         res["problems"].append("forbidden tokens: " + "; ".join(hits[:10]))
     if os.path.exists(audit):
-        rc, out, err = run(["lake", "env", "lean", audit], cwd=LEAN, timeout=1800)
+        # the audit module is built by lake too: its `#print axioms` output is part of the build log and is
+        # replayed from the cache when nothing changed (re-elaborated whenever a dependency changed)
+        rc, out, err = run(["lake", "build", f"Bnum.Audit.{pid}"], cwd=LEAN, timeout=1800)
         log.append(("audit", rc, (out + err)[-3000:]))
         if rc != 0:
             res["ok"] = False
             res["problems"].append("audit failed: " + (out + err)[-1500:])
         text = out + err
+        if "depends on axioms" not in text and "does not depend on any axioms" not in text:
+            # cache without a replayable log: elaborate the audit file directly
+            rc, out, err = run(["lake", "env", "lean", audit], cwd=LEAN, timeout=1800)
+            text = out + err
         # "'Bnum.foo' depends on axioms: [propext, Quot.sound]"  /  "'Bnum.foo' does not depend on any axioms"
         for m in re.finditer(r"'([^']+)' (depends on axioms: \[([^\]]*)\]|does not depend on any axioms)", text, re.S):
             name = m.group(1)
@@ -417,7 +423,7 @@ def main():
         "property_id": pid, "tier": tier, "seed": seed, "level": level,
         "coverage": {
             "obligations": proof["obligations"], "discharged": proof["discharged"],
-            "checker_cmd": f"cd lean && lake build Bnum.Props.{pid} && lake env lean Bnum/Audit/{pid}.lean" + (" && lake env leanchecker Bnum.Props.%s" % pid if tier == "thorough" else ""),
+            "checker_cmd": f"cd lean && lake build Bnum.Props.{pid} Bnum.Audit.{pid}  (audit = #print axioms of every property theorem)" + (" && lake env leanchecker Bnum.Props.%s" % pid if tier == "thorough" else ""),
             "trusted_base": TRUSTED_BASE + getattr(mod, "TRUSTED", []),
             "theorems": proof["theorems"],
             "evaluations": n_eval, "distinct_nontrivial": distinct,
